@@ -5,12 +5,18 @@ body.  Nothing of PySyncObj is replaced except transport, clocks and threads.
 
 Checked on seeded random schedules with long cuts (a cut-off holder keeps believing while the others move
 on) and on a directed D19 schedule (the holder is the leader; its two threads submit `prolongate(T2)` before
-`acquire(T1)`, T1 < T2; it applies the first and is cut off before the second commits):
+`acquire(T1)`, T1 < T2; it applies the first and is cut off before the second commits) and a directed
+`stale` schedule (node X is frozen -- no ticks, nothing delivered -- right after its client submitted a
+prolongation stamped t; the lock clock advances by more than U; Y acquires and prolongs every < U/2; X thaws
+and its old command is committed; Y's node is frozen meanwhile; Z tries; Y thaws):
   * every node's applied lock commands are a prefix of one common sequence (C01 -- reported as a
     disagreement of the plumbing assumption if not) and its lock table equals the Lean model's state after
     that prefix (`driver locks`), the values delivered to `tryAcquire` callbacks included;
   * the property: at every step, at the common lock-clock instant, at most one client considers a lock
-    held (own `isAcquired`, no own release outstanding); no late acquisition answered True."""
+    held (own `isAcquired`, no own release outstanding); no late acquisition answered True; on the
+    common applied sequence a held lock changes hands only by the holder's release or a stamp later than
+    lock time + U (`KeepMonitor`); in the `stale` schedule the prolonging holder still holds after catching
+    up and the competitor was refused."""
 import hashlib
 import pickle
 import random as _random
@@ -23,6 +29,7 @@ ORDER = 43
 
 SIG_REORDER = "batteries.ReplLockManager:stamp-reorder-mutex"
 SIG_MUTEX = "batteries.ReplLockManager:mutex-broken"
+SIG_MUTEX_STALE = "batteries.ReplLockManager:stale-stamp-mutex"
 NAMES = ["a", "b", "c"]
 
 
@@ -56,6 +63,7 @@ class Cluster(object):
         self.patch = lc.Patched(self.bat, self.clock)
         self.patch.__enter__()
         self.trs, self.q, self.up = {}, {}, set()
+        self.frozen = set()                    # nodes whose process is stopped: no ticks, nothing delivered
         self.submitted = dict((n, []) for n in NAMES)    # abstract cmds in submission order
         self.applied = dict((n, []) for n in NAMES)      # (abstract cmd, return value) in apply order
         self.answers = []
@@ -174,6 +182,8 @@ class Cluster(object):
         for _ in range(50):
             moved = False
             for key in sorted(self.q):
+                if key[1] in self.frozen:
+                    continue
                 while self.q[key]:
                     self.deliver_one(*key)
                     moved = True
@@ -189,7 +199,8 @@ class Cluster(object):
         for _ in range(steps):
             self.t += dt
             for n in NAMES:
-                self.tick(n)
+                if n not in self.frozen:
+                    self.tick(n)
             self.deliver_all()
 
     def leader(self):
@@ -271,11 +282,33 @@ def gen_schedule(rng, U):
             evs.append(("run", rng.choice((1, 2, 4, 8, 30))))
         elif r < 0.87:
             evs.append(("adv", rng.choice((1, 1, 2, max(1, U // 4), max(1, U // 2), U - 1, U, U + 1))))
-        elif r < 0.94:
+        elif r < 0.92:
             evs.append(("cut", n))
-        else:
+        elif r < 0.95:
             evs.append(("join", n))
+        elif r < 0.98:
+            evs.append(("freeze", n))
+        else:
+            evs.append(("thaw", n))
     return evs
+
+
+def stale_schedule(rng, U):
+    """directed `stale` discipline on the real cluster (roles resolved at run time: X, Z followers, Y any)."""
+    gap = rng.choice((U + 1, U + 2, 2 * U, 3 * U, U - 1, 1))
+    step = max(1, U // 2 - 1)
+    ev = [("run", 40), ("roles",), ("freeze_role", "X"), ("tick_role", "X"), ("adv", gap),
+          ("try_role", "Y", 1), ("run", 6)]
+    for _ in range(rng.randrange(1, 4)):
+        ev += [("adv", step), ("tick_role", "Y"), ("run", 4)]
+    lag = rng.random() < 0.7
+    if lag:
+        ev += [("freeze_role", "Y")]
+    ev += [("thaw_role", "X"), ("run", 70), ("adv", rng.choice((0, 1))), ("try_role", "Z", 1), ("run", 70)]
+    if lag:
+        ev += [("thaw_role", "Y"), ("run", 70)]
+    ev += [("expect_refused", "Z", 1), ("expect_holds", "Y", 1)]
+    return ev
 
 
 def d19_schedule(U=10):
@@ -284,6 +317,27 @@ def d19_schedule(U=10):
     cut off; the others elect, commit the second, and a competitor acquires after T1+U but before T2+U."""
     return [("run", 40), ("try_leader", 1), ("run", 6), ("adv", 1), ("race_leader", 1, 3), ("split_commit",),
             ("run", 60), ("adv", U - 2), ("try_other", 1), ("run", 8), ("adv", 0)]
+
+
+def in_time(cl, U, l=1):
+    """precondition of the `stale` expectations, read off what was actually committed: Y's acquire of L was
+    granted, Y's later stamps follow in order with gaps < U/2, the last one is less than U/2 ago, Y never
+    released (an election may have swallowed a prolongation: then nothing is expected)."""
+    y = NAMES.index(cl.roles["Y"]) + 1
+    longest = max((cl.applied[n] for n in NAMES), key=len)
+    stamps = None
+    for c, r in longest:
+        if c == ("rel", l, y):
+            return False
+        if stamps is None:
+            if c[0] == "acq" and c[1] == l and c[2] == y and r is True:
+                stamps = [c[3]]
+        elif (c[0] == "pro" and c[1] == y) or (c[0] == "acq" and c[2] == y and c[1] == l):
+            stamps.append(c[-1])
+    if not stamps:
+        return False
+    stamps.append(cl.clock.now)
+    return all(0 <= 2 * (b - a) < U for a, b in zip(stamps, stamps[1:]))
 
 
 def execute(repo, U, seed, evs, use_batch=True, nlk=2):
@@ -311,6 +365,47 @@ def execute(repo, U, seed, evs, use_batch=True, nlk=2):
                 cl.hit("cut")
             elif k == "join":
                 cl.join(ev[1])
+            elif k == "freeze":
+                cl.frozen.add(ev[1])
+                cl.hit("freeze")
+            elif k == "thaw":
+                cl.frozen.discard(ev[1])
+            elif k == "roles" and L:
+                fol = [n for n in NAMES if n != L]
+                cl.roles = {"X": fol[0], "Z": fol[1], "Y": L if cl.rng.random() < 0.5 else fol[1]}
+                if cl.roles["Y"] == cl.roles["Z"]:
+                    cl.roles["Z"] = L
+            elif k.endswith("_role") and getattr(cl, "roles", None):
+                n = cl.roles[ev[1]]
+                if k == "freeze_role":
+                    cl.frozen.add(n)
+                    cl.hit("freeze")
+                elif k == "thaw_role":
+                    cl.frozen.discard(n)
+                elif k == "tick_role":
+                    cl.prolong_pass(n)
+                    cl.hit("tick")
+                elif k == "try_role":
+                    cl.try_acquire(n, ev[2])
+                    cl.hit("try")
+            elif k in ("expect_holds", "expect_refused") and getattr(cl, "roles", None) and not in_time(cl, U):
+                cl.hit("expect.skipped-holder-did-not-prolong-in-time")
+            elif k == "expect_holds" and getattr(cl, "roles", None):
+                n = cl.roles[ev[1]]
+                cl.hit("expect.holder-still-holds")
+                if not cl.mgrs[n].isAcquired(lc.lock_name(ev[2])):
+                    cl.viols.append({"signature": "batteries.ReplLockManager:holder-lost-lock-without-release-or-expiry",
+                                     "what": "cluster: client %s acquired L%d, prolonged it every < U/2 (U=%d), never released; after "
+                                             "catching up (%d commands applied) at lock-clock %d its isAcquired is False; table %s"
+                                             % (n, ev[2], U, len(cl.applied[n]), cl.clock.now, lc.table_of(cl.mgrs[n]._consumer()))})
+            elif k == "expect_refused" and getattr(cl, "roles", None):
+                n = cl.roles[ev[1]]
+                cl.hit("expect.competitor-refused")
+                got = [a.get("ans") for a in cl.answers if a["client"] == n and a["l"] == ev[2] and "ans" in a]
+                if any(r is True for r in got):
+                    cl.viols.append({"signature": "batteries.ReplLockManager:lock-granted-while-held-and-prolonged",
+                                     "what": "cluster: client %s was granted L%d (answers %s) while another client holds and prolongs it "
+                                             "every < U/2 (U=%d)" % (n, ev[2], got, U)})
             elif k == "try_leader" and L:
                 cl.holder = L
                 cl.try_acquire(L, ev[1])
@@ -345,6 +440,18 @@ def execute(repo, U, seed, evs, use_batch=True, nlk=2):
             if cl.viols:
                 first = idx
                 break
+        if first is None:
+            longest = max((cl.applied[n] for n in NAMES), key=len)
+            keep = lc.KeepMonitor(cl.bat, U)
+            for c, _ in longest:
+                _, kv, flags = keep.apply(c)
+                for f in flags:
+                    cl.hit(f)
+                if kv is not None:
+                    kv["what"] = "cluster: common applied sequence %s: %s" % ([lc.cmd_str(x) for x, _ in longest], kv["what"])
+                    cl.viols.append(kv)
+                    first = len(evs) - 1
+                    break
         out = {"applied": dict((n, list(cl.applied[n])) for n in NAMES),
                "tables": dict((n, lc.table_of(cl.mgrs[n]._consumer())) for n in NAMES),
                "answers": [dict(a) for a in cl.answers], "viols": list(cl.viols), "cov": dict(cl.cov), "first": first,
@@ -423,6 +530,26 @@ def run(ctx):
         if U == 10:
             samples.append({"schedule": "d19", "applied": dict((n, [lc.cmd_str(c) for c, _ in out["applied"][n]]) for n in NAMES),
                             "tables": out["tables"]})
+    # directed `stale` schedules
+    for i in range(ctx.scale(40, 600)):
+        U = rng.choice((4, 8, 10))
+        seed = rng.randrange(10 ** 6)
+        evs = stale_schedule(_random.Random(seed), U)
+        out = execute(ctx.repo, U, seed, evs)
+        cases += 1
+        seen.add("stale-%d-%d" % (U, seed))
+        for k, v in out["cov"].items():
+            cov["stale." + k] = cov.get("stale." + k, 0) + v
+        d = prefix_check(U, out)
+        if d and len(disagreements) < 3:
+            disagreements.append(d)
+        mb.add(U, out, {"schedule": "stale", "seed": seed})
+        if out["viols"]:
+            v = out["viols"][0]
+            sig = v["signature"] or SIG_MUTEX_STALE
+            if sig not in [x["signature"] for x in viols] and len(viols) < 4:
+                viols.append({"signature": sig, "what": "[directed stale schedule] " + v["what"],
+                              "replay": {"kind": "cluster-stale", "U": U, "seed": seed}})
     n = ctx.scale(300, 6000)
     t_end = time.time() + ctx.budget_s * 0.5
     for i in range(n):
@@ -453,17 +580,46 @@ def run(ctx):
     res = {"cases": cases, "distinct": len(seen), "coverage": dict(sorted(cov.items())), "samples": samples,
            "disagreements": disagreements, "violations": viols, "wall_s": round(time.time() - t0, 2)}
     need = ["try", "release", "tick", "cut", "answer.true", "answer.false", "held.1", "applied.cmds",
-            "nodes.at.different.prefixes", "d19.race", "d19.split"]
+            "nodes.at.different.prefixes", "d19.race", "d19.split", "stale.freeze",
+            "stale.pro.stale-while-fresh-lock-of-another-client", "stale.expect.holder-still-holds",
+            "stale.expect.competitor-refused"]
     missing = [k for k in need if not cov.get(k)]
     if missing and not viols:
         res["inconclusive"] = "coverage floor missed: " + ",".join(missing)
     return res
 
 
+def search(ctx, unproved):
+    """failing-input search on the real cluster: the directed `stale` and D19 schedules over more seeds"""
+    rng = ctx.rng("locks.cluster.search")
+    found, t_end = [], time.time() + ctx.budget_s * 0.4
+    for U in (8, 10, 12):
+        out = execute(ctx.repo, U, ctx.seed, d19_schedule(U), use_batch=False)
+        if out["viols"] and not found:
+            v = out["viols"][0]
+            found.append({"signature": v["signature"] or SIG_REORDER, "what": "[directed D19 schedule] " + v["what"],
+                          "replay": {"kind": "cluster-d19", "U": U, "seed": ctx.seed}})
+    for i in range(ctx.scale(300, 3000)):
+        U = rng.choice((4, 8, 10, 12))
+        seed = rng.randrange(10 ** 6)
+        out = execute(ctx.repo, U, seed, stale_schedule(_random.Random(seed), U))
+        if out["viols"]:
+            v = out["viols"][0]
+            sig = v["signature"] or SIG_MUTEX_STALE
+            if sig not in [x["signature"] for x in found]:
+                found.append({"signature": sig, "what": "[directed stale schedule] " + v["what"],
+                              "replay": {"kind": "cluster-stale", "U": U, "seed": seed}})
+        if len(found) >= 3 or time.time() > t_end:
+            break
+    return found
+
+
 def replay(ctx, violation):
     rp = violation["replay"]
     if rp["kind"] == "cluster-d19":
         out = execute(ctx.repo, rp["U"], rp["seed"], d19_schedule(rp["U"]), use_batch=False)
+    elif rp["kind"] == "cluster-stale":
+        out = execute(ctx.repo, rp["U"], rp["seed"], stale_schedule(_random.Random(rp["seed"]), rp["U"]))
     else:
         out = execute(ctx.repo, rp["U"], rp["seed"], [tuple(e) for e in rp["events"]])
     return {"violated": bool(out["viols"]), "what": [v["what"] for v in out["viols"][:2]],
